@@ -33,7 +33,7 @@ def named_fn(arg, f, hook=None, tag=None):
 
 
 GRAPHS = ["lin_s", "lin_d_s", "gmrf_d_s", "lmrf_d", "two_lik", "nonlin", "xz_s", "laplace_b", "mean_m", "cmrf_d",
-          "lognormal", "lognormal_cov_s", "lin_sqrtprecF", "reg_d", "lin_geom", "sigdep_x"]   # ("reg_s" is buildable but RegularizedGaussian has no log-density: not a C01/C11 graph)
+          "lognormal", "lognormal_cov_s", "lin_sqrtprecF", "reg_d", "lin_geom", "sigdep_x", "direct_param"]   # ("reg_s" is buildable but RegularizedGaussian has no log-density: not a C01/C11 graph)
 
 
 def build(rec, hook=None):
@@ -169,6 +169,15 @@ def build(rec, hook=None):
         dens = [y, x, s]
         vals = {"y": ydata, "x": xval, "s": pos()}
         out["models"]["A"] = M
+    elif g == "direct_param":
+        # a conditioning variable that IS a parameter left unspecified (mean=None), not a callable: the variable of the
+        # joint is literally called "mean"
+        from cuqi.distribution import Laplace as _Laplace
+        mean_ = _Laplace(np.zeros(m), 1.5, name="mean")     # (a family without a parameter of its own called "mean")
+        s = Gamma(1.0, 0.1, name="s")
+        y = Gaussian(mean=None, cov=inv("s", "y.cov"), geometry=m, name="y")
+        dens = [y, mean_, s]
+        vals = {"y": ydata, "mean": rs.randn(m) * 0.5, "s": pos()}
     elif g == "sigdep_x":
         # signal-dependent noise: the SAME variable feeds two callables (mean and covariance) of one density
         d = Gamma(1.0, 0.1, name="d")
